@@ -3,9 +3,11 @@
 From ClapModel Require Import Base.Bytes Base.Machine.
 From ClapModel Require Import Parse.Cmd Parse.Build Parse.Valid Parse.Matcher Parse.Errors Parse.Validator Parse.Parser.
 From ClapModel Require Import ParseProofs.Totality ParseProofs.Actions ParseProofs.Unparse ParseProofs.UnparseTop ParseProofs.UnparseTrail
-                              ParseProofs.UnparseTree ParseProofs.KindSound ParseProofs.SourcesLine ParseProofs.SourcesLineExamples.
+                              ParseProofs.UnparseTree ParseProofs.KindSound ParseProofs.SourcesLine ParseProofs.SourcesDefaults ParseProofs.SourcesLineExamples.
 From ClapModel Require Import Sources.Present ParseProofs.Sources Gen.ActionDefaults.
 From Coq Require Import ZArith List.
+From RecordUpdate Require Import RecordSet.
+Import RecordSetNotations.
 Import ListNotations.
 Open Scope N_scope.
 
@@ -427,3 +429,99 @@ Proof.
   split; [exact SrcEx.ex_parse|]. split; [exact SrcEx.ex_named|]. exact (proj1 (proj2 SrcEx.ex_at_level)).
 Qed.
 Print Assumptions C06_line_nonvacuous.
+
+(** (4) VALUES THAT CAME FROM DEFAULTS NEVER TRIGGER CONFLICTS, REQUIREMENTS OR ARGUMENTS-PRESENT LOGIC,
+    as a non-interference theorem between two commands (ParseProofs/SourcesDefaults.v).
+    [with_defaults f c]: every argument [a] of the level gets the plain defaults [f a]; nothing else changes. *)
+Theorem C06_with_defaults_spec : forall f c,
+  with_defaults f c = c <| c_args := map (fun a => a <| a_default := f a |>) (c_args c) |>
+  /\ c_groups (with_defaults f c) = c_groups c /\ c_subs (with_defaults f c) = c_subs c
+  /\ c_set (with_defaults f c) = c_set c /\ c_gset (with_defaults f c) = c_gset c.
+Proof. intros. repeat split. Qed.
+Print Assumptions C06_with_defaults_spec.
+
+(** the command-line phase, the environment phase and the validator cannot read a default value:
+    the occurrences of the line are the same up to the argument records, the fold of [react] over
+    them, [add_env] and [validate] are EQUAL functions for both commands *)
+Theorem C06_phases_ignore_defaults : forall f c,
+  (forall i, inv_occs (with_defaults f c) i = map (omap f) (inv_occs c i))
+  /\ (forall os st, react_all (with_defaults f c) (map (omap f) os) st = react_all c os st)
+  /\ (forall st, add_env (with_defaults f c) st = add_env c st)
+  /\ (forall m, validate (with_defaults f c) m = validate c m).
+Proof. exact (fun f c => conj (ni_inv_occs f c) (conj (ni_react_all f c) (conj (ni_add_env f c) (ni_validate f c)))). Qed.
+Print Assumptions C06_phases_ignore_defaults.
+
+(** [pre_defaults c i st2]: [st2] is the level's state after the command line (the fold of [react]
+    over the invocation's occurrences), the subcommand's matches and the environment phase *)
+Theorem C06_pre_defaults_spec : forall c i st2,
+  pre_defaults c i st2 <->
+  exists st1 st1', react_all c (inv_occs c i) ps_new = ROk st1 /\ with_sub c i st1 = Some st1' /\ add_env c st1' = ROk st2.
+Proof. intros. split; intros H; exact H. Qed.
+Print Assumptions C06_pre_defaults_spec.
+
+(** NON-INTERFERENCE: the same rendered invocation, well formed for [c] and for [with_defaults f c]:
+    (1) the state before the defaults phase is the same; (2) each parse succeeds iff that state
+    exists, the validator accepts IT (no default value is in it) and its own defaults phase succeeds;
+    (3) when both succeed the results are that state followed by entries labelled DefaultValue only:
+    explicit entries, [check_explicit], subcommand matches and [args_present] agree.
+    (No restriction on [default_value_if] / [required_if_eq]: a changed default can only change
+    other DefaultValue entries.) *)
+Theorem C06_defaults_noninterference : forall f c i, wf_inv c i = true -> wf_inv (with_defaults f c) i = true ->
+  (forall st2, pre_defaults (with_defaults f c) i st2 <-> pre_defaults c i st2)
+  /\ (forall st, run_inv c i = ROk st <->
+        exists st2, pre_defaults c i st2 /\ validate c (mt st2) = VOk /\ add_defaults c st2 = ROk st)
+  /\ (forall st', run_inv (with_defaults f c) i = ROk st' <->
+        exists st2, pre_defaults c i st2 /\ validate c (mt st2) = VOk /\ add_defaults (with_defaults f c) st2 = ROk st')
+  /\ (forall st st', run_inv c i = ROk st -> run_inv (with_defaults f c) i = ROk st' ->
+        explicit_entries (mt st') = explicit_entries (mt st) /\ mt_sub (mt st') = mt_sub (mt st)
+        /\ args_present (into_inner (mt st')) = args_present (into_inner (mt st))
+        /\ (forall j p, check_explicit (mt st') j p = check_explicit (mt st) j p)
+        /\ exists st2 news news', pre_defaults c i st2
+             /\ mt_args (mt st) = mt_args (mt st2) ++ news /\ mt_args (mt st') = mt_args (mt st2) ++ news'
+             /\ Forall is_default news /\ Forall is_default news').
+Proof. exact defaults_noninterference. Qed.
+Print Assumptions C06_defaults_noninterference.
+
+(** ... for [get_matches_with] at the root of any tree, and at [parse_top] for two definitions whose
+    built forms differ only in plain default values (trees without global arguments) *)
+Theorem C06_defaults_noninterference_level : forall f c i fu st st',
+  valid_tree (S fu) c = true -> valid_tree (S fu) (with_defaults f c) = true ->
+  wf_inv c i = true -> wf_inv (with_defaults f c) i = true ->
+  get_matches_with (S fu) c (render_inv i) ps_new = ROk st ->
+  get_matches_with (S fu) (with_defaults f c) (render_inv i) ps_new = ROk st' ->
+  explicit_entries (mt st') = explicit_entries (mt st) /\ mt_sub (mt st') = mt_sub (mt st)
+  /\ args_present (into_inner (mt st')) = args_present (into_inner (mt st))
+  /\ (forall j p, check_explicit (mt st') j p = check_explicit (mt st) j p).
+Proof. exact gmw_defaults_ni. Qed.
+Print Assumptions C06_defaults_noninterference_level.
+
+Theorem C06_defaults_noninterference_top : forall c0 c0' bin f i m m',
+  is_set s_no_binary_name c0 = false -> is_set s_no_binary_name c0' = false ->
+  valid (with_bin c0 bin) = true -> valid (with_bin c0' bin) = true ->
+  build_self (with_bin c0' bin) = with_defaults f (build_self (with_bin c0 bin)) ->
+  wf_inv (build_self (with_bin c0 bin)) i = true -> wf_inv (with_defaults f (build_self (with_bin c0 bin))) i = true ->
+  no_globals (build_recursive (S (S (depth (build_self (with_bin c0 bin))))) (with_bin c0 bin)) = true ->
+  no_globals (build_recursive (S (S (depth (build_self (with_bin c0' bin))))) (with_bin c0' bin)) = true ->
+  parse_top c0 (bin :: render_inv i) = OOk m -> parse_top c0' (bin :: render_inv i) = OOk m' ->
+  explicit_of m' = explicit_of m /\ ms_sub m' = ms_sub m /\ args_present m' = args_present m.
+Proof. exact parse_top_defaults_ni. Qed.
+Print Assumptions C06_defaults_noninterference_top.
+
+(** Non-vacuity: the example command with other defaults for four arguments ([kk] "Z" for "k", [aa]
+    none, [nn] "N", [bb] "w"), the same line: all hypotheses hold, both parses succeed, the results
+    differ in the DefaultValue entries of [kk] and [nn] only. *)
+Theorem C06_defaults_noninterference_nonvacuous :
+  is_set s_no_binary_name SrcEx.t2 = false /\ valid (with_bin SrcEx.t2 SrcEx.tbin) = true /\
+  build_self (with_bin SrcEx.t2 SrcEx.tbin) = with_defaults SrcEx.f2 SrcEx.cb /\
+  wf_inv (with_defaults SrcEx.f2 SrcEx.cb) SrcEx.tinv = true /\
+  no_globals (build_recursive (S (S (depth (build_self (with_bin SrcEx.t2 SrcEx.tbin))))) (with_bin SrcEx.t2 SrcEx.tbin)) = true /\
+  exists ms2, parse_top SrcEx.t2 (SrcEx.tbin :: render_inv SrcEx.tinv) = OOk ms2 /\
+    SrcEx.summary ms2 = [([109], Some SCmdLine, [[[77]]]); ([102], Some SCmdLine, [[s_true]]);
+                         ([97], Some SEnv, [[[69;49]]]); ([101], Some SEnv, [[[69;50]; [51]]]);
+                         ([98], Some SDefault, [[[120]]]); ([103], Some SDefault, [[s_false]]);
+                         ([104], Some SDefault, [[s_false]]); ([107], Some SDefault, [[[90]]]); ([110], Some SDefault, [[[78]]])].
+Proof.
+  destruct SrcEx.ex_ni_hyps as [H1 [H2 [H3 [H4 H5]]]].
+  split; [exact H1|]. split; [exact H2|]. split; [exact H3|]. split; [exact H4|]. split; [exact H5|]. exact SrcEx.ex_ni_parse.
+Qed.
+Print Assumptions C06_defaults_noninterference_nonvacuous.
